@@ -123,6 +123,7 @@ type History struct {
 	Ops    []Op    `json:"ops"`
 	Auto   bool    `json:"auto"`  // size-triggered (automatic) flushes: memtable limit of 1 byte, 100 ms snapshot timer
 	Async  bool    `json:"async"` // crash images are opened with wal-replay-async = true (see AsyncInfo)
+	Par    bool    `json:"par"`   // crash images are opened with wal-replay-parallel = true (every partition re-applied by its own goroutine)
 	Pre    int     `json:"pre"`   // leading warm-up ops (write+flush rounds that age the shard); no crash images there
 	Images []Image `json:"images"`
 	Crash  string  `json:"crash,omitempty"`
@@ -146,7 +147,7 @@ type Flags struct {
 
 type spec struct {
 	nser, nwal, nmst, pre int
-	auto, async           bool
+	auto, async, par      bool
 	tornAll               int // index of the write op that gets an image for every byte prefix of its log record (-1 none)
 	ops                   []Op
 }
@@ -309,6 +310,7 @@ func genHistory(r *gen.Rand) (sp spec) {
 	sp.ops = ops
 	sp.auto = r.Chance(1, 6)
 	sp.async = !sp.auto && r.Chance(1, 5)
+	sp.par = !sp.auto && !sp.async && sp.nwal >= 2 && r.Chance(1, 8)
 	return
 }
 
@@ -387,6 +389,12 @@ func heldWriterHistory() spec {
 		{K: "W", H: 1, Rows: []tsdrv.Row{{S: 0, T: 4, F: []tsdrv.FV{{F: 0, V: 86}}}}}, w1(0, 4, 87),
 		w1(0, 4, 88)}
 	return spec{nser: 2, nwal: 3, nmst: 1, tornAll: -1, ops: ops}
+}
+
+// fixed history for parallel replay: 3 partitions, overwrites of one cell that land in different partitions, no flush
+func parallelHistory() spec {
+	ops := []Op{w1(0, 1, 91), w1(0, 1, 92), w1(0, 2, 93), w1(0, 1, 94), w1(0, 2, 95), w1(1, 1, 96), w1(0, 1, 97)}
+	return spec{nser: 2, nwal: 3, nmst: 1, par: true, tornAll: -1, ops: ops}
 }
 
 // fixed history: every byte prefix of one log record (the overwrite after a flush), 2 partitions
@@ -533,7 +541,7 @@ func (rn *runner) runHistory(idx int, sp spec, r *gen.Rand) *History {
 	quick, rec, g := rn.quick, rn.rec, rn.g
 	ops, nser, nwal, nmst, pre := sp.ops, sp.nser, sp.nwal, max(sp.nmst, 1), sp.pre
 	dense := idx > 100000 // the fixed histories: every first-level crash point, sampled second-level ones
-	h := &History{Case: idx, NWal: nwal, NSer: nser, NMst: nmst, Ops: ops, Pre: pre, Auto: sp.auto, Async: sp.async, Images: []Image{}}
+	h := &History{Case: idx, NWal: nwal, NSer: nser, NMst: nmst, Ops: ops, Pre: pre, Auto: sp.auto, Async: sp.async, Par: sp.par, Images: []Image{}}
 	rn.hmu.Lock()
 	rn.cur = h
 	rn.hmu.Unlock()
@@ -1371,6 +1379,8 @@ func (rn *runner) runHistory(idx int, sp spec, r *gen.Rand) *History {
 		h.Images = append(h.Images, im)
 		rn.hmu.Unlock()
 	}
+	replayParallel = sp.par
+	defer func() { replayParallel = false }()
 	for pix, p := range pend {
 		pi = pix
 		im := p.img
@@ -1432,7 +1442,7 @@ func main() {
 		stuckAfter = time.Duration(v) * time.Second
 	}
 	guarded := func(idx int, sp spec, r *gen.Rand) {
-		_ = enc.Encode(map[string]any{"start": idx, "nwal": sp.nwal, "nser": sp.nser, "nmst": max(sp.nmst, 1), "pre": sp.pre, "auto": sp.auto, "async": sp.async, "ops": sp.ops})
+		_ = enc.Encode(map[string]any{"start": idx, "nwal": sp.nwal, "nser": sp.nser, "nmst": max(sp.nmst, 1), "pre": sp.pre, "auto": sp.auto, "async": sp.async, "par": sp.par, "ops": sp.ops})
 		done := make(chan *History, 1)
 		go func() {
 			defer func() {
@@ -1490,7 +1500,7 @@ func main() {
 			fmt.Fprintln(os.Stderr, err)
 			os.Exit(2)
 		}
-		sp := spec{nser: h.NSer, nwal: h.NWal, nmst: h.NMst, pre: h.Pre, auto: h.Auto, async: h.Async, tornAll: -1, ops: h.Ops}
+		sp := spec{nser: h.NSer, nwal: h.NWal, nmst: h.NMst, pre: h.Pre, auto: h.Auto, async: h.Async, par: h.Par, tornAll: -1, ops: h.Ops}
 		if h.TornAll != nil {
 			sp.tornAll = *h.TornAll
 		}
@@ -1501,9 +1511,9 @@ func main() {
 	}
 	only := os.Getenv("VERIF_ONLY")
 	fixed := []spec{witness(), aged8(), newSeriesBeforeFlush(), dropHistory(), tornSweep(), asyncHistory(),
-		duringFlush(1, 0), duringFlush(1, 2), duringFlush(3, 1), duringFlush(3, 3), duringFlush(2, 2), heldWriterHistory()}
+		duringFlush(1, 0), duringFlush(1, 2), duringFlush(3, 1), duringFlush(3, 3), duringFlush(2, 2), heldWriterHistory(), parallelHistory()}
 	for i, sp := range fixed {
-		if !quick || i < 6 || i-6 == int(gen.FromEnv(77).Intn(5)) || i == 7 || i == 11 { // quick: two of the five held-flush histories
+		if !quick || i < 6 || i-6 == int(gen.FromEnv(77).Intn(5)) || i == 7 || i == 11 || i == 12 { // quick: two of the five held-flush histories
 			if only != "" && only != strconv.Itoa(100000+i) {
 				continue
 			}
